@@ -19,18 +19,28 @@ Parts
        with system B (all 25 ordered pairs x 4 flag settings of B), as Segments
        (same Style object) and as Text with a style *definition* (object shared
        through the Style.parse cache / copied by Console.get_style)
-  SH2  histories of length 2 (A1, A2, B: 125 triples), Style.render() with its
-       default system as a history step, and the derived objects copy() /
-       update_link() / + that inherit the memo
-  Q    every sequence of <=2 (quick) / <=3 (thorough) segments over a menu of
-       12 styles + unstyled x 4 texts + 4 control segments, 40 configurations,
-       three hand-over modes (cropped print, crop=False, Text)
+  SH2  histories of length 2 (A1, A2, B: 125 triples; length 3 in thorough),
+       first writers with NO_COLOR / no terminal / legacy windows, Style.render()
+       with its default system as a history step, a Theme object shared by both
+       consoles, and the derived objects copy() / update_link() / + that inherit
+       the memo
+  Q    every sequence of <=2 (quick) / <=3 (thorough, third position from a
+       reduced menu) segments over a menu of (12 styles + unstyled) x 4 texts
+       + 4 control segments (one of them styled), 40 configurations, three
+       hand-over modes (cropped print, crop=False, Text)
   QH   the <=2 sequences again after a history (A, B)
-  T    two overlapping spans + base style on a Text (styles made by Style.__add__)
+  T    two overlapping spans + base style on a Text (styles made by
+       Style.__add__), fresh and after a history
 
-Measured on this machine, 16 workers (see report):
-  quick    ~1.17 M judged writes, ~8 s wall
-  thorough ~19 M judged writes, ~2 min wall
+A failing case that has a history is re-executed with fresh objects; when the
+fresh write is right the finding key gets the prefix ``history/`` (the defect is
+in what the objects remember, not in what they emit).
+
+Measured (machine shared with other jobs, load average 80-90 on 16 cores, so CPU
+time is the meaningful number):
+  quick    882,788 judged writes, ~5.1 k outcome signatures, ~220-270 CPU-s
+           (41 s wall with 6 workers when the machine was quieter; ~15 s on 16 idle cores)
+  thorough 5,792,724 judged writes, ~1600 CPU-s (~2 min on 16 idle cores)
 """
 import io
 import itertools
@@ -42,7 +52,7 @@ from ..term import ESC, decode, tokenize
 ID = "C03"
 LEVEL = "exploration"
 ENGINE = "E1"
-CAP_S = {"quick": 240, "thorough": 1500}
+CAP_S = {"quick": 240, "thorough": 1800}
 
 SYSTEMS = [None, "standard", "256", "truecolor", "windows"]
 LINK = "https://e.x/a?b=c"
@@ -596,7 +606,7 @@ def _sequences(tier):
     for p in itertools.product(menu, repeat=2):
         yield p
     if tier != "quick":
-        for p in itertools.product(menu, repeat=3):
+        for p in itertools.product(menu, menu, seg_menu(small=True)):
             yield p
 
 
@@ -689,7 +699,7 @@ def describe(tier, seed, res):
                 "(mode, configuration, history systems, derivation, expected attrs?/fg kind/bg kind/link?, controls?, long?) tuples."
                 % (ns, "" if tier == "quick" else "; attribute triples", len(K_QUICK if tier == "quick" else K_QUICK + K_MORE),
                    len(colour_styles(tier)), "" if tier == "quick" else ", 256 three-step histories",
-                   2 if tier == "quick" else 3, ""),
+                   2 if tier == "quick" else 3, "" if tier == "quick" else " (third position: reduced menu of 28)"),
         "assumptions": [
             "Color.downgrade is the documented down-conversion (decided by C18); Color.parse of the 30 fixed colour specs is trusted",
             "'no control codes when not a terminal' is read as: no C0/CSI/OSC token other than SGR and OSC 8 reaches the file "
